@@ -171,6 +171,9 @@ func limMakeTP(id uint64, v uint64) tls.TransportParameter {
 // limBuildSpec: the built-in spec with the limit parameters of its transport-parameter extension replaced by the
 // generated list (every other parameter - version information, GREASE, initial_source_connection_id ... - stays).
 func limBuildSpec(sc *LimScenario) (*quic.QUICSpec, error) {
+	if sc.Cfg.Client == "plain" {
+		return nil, nil
+	}
 	id, ok := wSpecIDs[sc.Cfg.Client]
 	if !ok {
 		return nil, fmt.Errorf("unknown client kind %q", sc.Cfg.Client)
@@ -433,6 +436,16 @@ func genLimits(seed uint64, tier string) KScenario {
 	}
 	if r.P(0.2) {
 		sc.Net.Burst = r.Pick(2, 4, 16)
+	}
+	if r.P(0.08) {
+		// a plain (spec-less) client for the stream-count dimension: what it advertises comes from its Config, and the two
+		// stream types have limits of their own
+		sc.Cfg.Client, sc.TPs, sc.ViaSuppress, sc.Reader = "plain", nil, false, ""
+		sc.Push = r.Pick2("streams-uni", "streams-bidi")
+		sc.Cfg.Win, sc.Cfg.MaxWin = [4]uint64{}, [4]uint64{}
+		sc.Cfg.MaxStreams[0] = int64(r.Pick(1, 3, 10, 40, 100, 130))
+		sc.Cfg.MaxUniStreams[0] = int64(r.Pick(2, 5, 12, 50, 100, 120))
+		sc.Cfg.IdleMS[0] = 0
 	}
 	return sc
 }
@@ -777,8 +790,10 @@ func runLimits(t *testing.T, ksc KScenario, res *KResult) {
 		res.Fail("spec could not be built", "%v", err)
 		return
 	}
-	nodes.Spec = spec
-	nodes.UTr = &quic.UTransport{Transport: nodes.CTr, QUICSpec: spec}
+	if spec != nil {
+		nodes.Spec = spec
+		nodes.UTr = &quic.UTransport{Transport: nodes.CTr, QUICSpec: spec}
+	}
 	wo := NewWireOracles(w, nodes, res)
 	wo.on = on
 	lw := &limWire{streamEnd: map[uint64]uint64{}, maxStreamTo: map[uint64]uint64{}, ncidSeen: map[uint64]bool{}, ncidRetired: map[uint64]bool{}}
@@ -1498,6 +1513,55 @@ func runLimits(t *testing.T, ksc KScenario, res *KResult) {
 	var state quic.ConnectionState
 	if cause == nil {
 		state = cconn.ConnectionState()
+	}
+	// ---- and one step beyond (C15: "an attempt beyond the advertised MAX_STREAMS is answered with STREAM_LIMIT_ERROR"): the
+	// simulator plays a server that opens a stream far beyond anything the client has advertised or may have granted since.
+	// The in-tree server never would, so the packet is sealed by the observer with the session's keys.
+	if (sc.Push == "streams-uni" || sc.Push == "streams-bidi") && cause == nil && scause == nil && !spoken && !res.Failed() {
+		w.mu.Lock()
+		w.Tap.mu.Lock()
+		var last *TapPacket
+		for _, p := range w.Tap.All {
+			if p.Dir == 1 && p.Type == Tap1RTT && p.Opened && p.Conn != nil && !p.Conn.Shadow {
+				last = p
+			}
+		}
+		var pkt []byte
+		if last != nil {
+			// the limit in force: what was advertised, raised by every MAX_STREAMS the client has put on the wire since
+			lw.mu.Lock()
+			want := max(adv.streamsBidi, lw.maxStreams[0])
+			id := uint64(1) // server-initiated bidirectional
+			if sc.Push == "streams-uni" {
+				want, id = max(adv.streamsUni, lw.maxStreams[1]), 3
+			}
+			lw.mu.Unlock()
+			// the stream right behind the limit, or - half of the time - one further out
+			id += 4 * (want + uint64(sc.Seed%2)*40)
+			payload := append([]byte{0x0a}, wVarint(id)...) // STREAM frame with a length field, offset 0
+			payload = append(payload, 1, 0x55)
+			pkt = last.Conn.tapSeal1RTT(1, last.DCID, uint64(last.Conn.largest[1][2]+1), payload)
+		}
+		w.Tap.mu.Unlock()
+		w.mu.Unlock()
+		if pkt != nil {
+			w.InjectTo(1, pkt)
+			tm := time.NewTimer(200 * time.Millisecond)
+			select {
+			case <-cconn.Context().Done():
+			case <-tm.C:
+			}
+			tm.Stop()
+			var te *quic.TransportError
+			switch c2 := context.Cause(cconn.Context()); {
+			case c2 == nil:
+				report("C12", "client accepted a stream beyond the stream count it advertised (no STREAM_LIMIT_ERROR)", "push %s: advertised bidi %d uni %d; client Config: MaxIncomingStreams %d MaxIncomingUniStreams %d", sc.Push, adv.streamsBidi, adv.streamsUni, sc.Cfg.MaxStreams[0], sc.Cfg.MaxUniStreams[0])
+			case errors.As(c2, &te) && !te.Remote && te.ErrorCode == quic.StreamLimitError:
+				res.Probe("stream-beyond-the-advertised-count-refused")
+			default:
+				res.Probe("stream-beyond-the-advertised-count: connection ended otherwise")
+			}
+		}
 	}
 	closeBoth()
 	appCancel()
